@@ -165,7 +165,8 @@ class Gen:
             if self.rng.random() < 0.04:
                 a["mathvariant"] = self.rng.choice(["bold", "italic", "double-struck", "normal"])
             if self.rng.random() < 0.02:
-                a["data-changed"] = "data-was-mo"
+                # the library's own marker for a whitespace mo it turned into an mtext (it is only ever put on an NBSP mtext)
+                return T("mtext", text="\u00a0", attrs=[("data-changed", "data-was-mo")])
             return mi(self.rng.choice(IDENTS), **a)
         if r < 0.9:
             return mn(self.rng.choice(NUMS))
